@@ -1,6 +1,6 @@
 """C08 — derived Encode emits exactly the documented wire format."""
 import derivegen as dg
-from derivegen import prepare, route
+from derivegen import prepare, route, oracle
 
 RULE = ("DENC <sid> <schema> <def> <value>: a value of a type definition drawn from the schema grammar (checks/derivegen.py: n/b indices with gaps "
         "and permutations, array/map at type, enum and variant level, index_only, transparent, skip, tags at the four levels, with=minicbor::bytes, "
